@@ -91,11 +91,11 @@ R["C02"] = {"harnesses": [H("H_Merge", MERGE_Q, None, ["merge/end", "merge/objec
             "assumptions": ["member names distinct within an object"],
             "outside_bound": ["documents and patches outside the listed families (more members, deeper nesting)"]}
 R["C03"] = {"harnesses": [
+    H("H_CreateBig", [{}], None, ["createbig/end"], "numbers that float64 cannot hold exactly (2^53+1, 19 fractional digits, 23 digits, 1E5, 1e400) on a fresh pooled decoder state: carried into the patch verbatim; two members whose values in A and B are neighbouring 16-digit integers / 17-digit decimals with a symbolic last digit (different numbers that one float64 may not tell apart): in the patch exactly when the digits differ"),
     H("H_Create", [{"m": 2, "vals": 47}, {"m": 1, "vals": 262143}, {"m": 2, "vals": 65537}], [{"m": 2, "vals": 255}, {"m": 1, "vals": 262143}, {"m": 2, "vals": 196611}],
       ["create/end", "create/no-null-target"], CREATE_BOUND),
     H("H_CreateArr", [{"vals": 31}], None, ["createarr/end", "createarr/rejected"], "arrays of 0..2 objects of <= 1 member each (first five value shapes)"),
-    H("H_CreateReject", [{}], None, ["createreject/accepted", "createreject/rejected"], "all 49 pairs of 7 root kinds"),
-    H("H_CreateBig", [{}], None, ["createbig/end"], "numbers that float64 cannot hold exactly (2^53+1, 19 fractional digits, 23 digits, 1E5, 1e400) on a fresh pooled decoder state: carried into the patch verbatim; two members whose values in A and B are neighbouring 16-digit integers / 17-digit decimals with a symbolic last digit (different numbers that one float64 may not tell apart): in the patch exactly when the digits differ")],
+    H("H_CreateReject", [{}], None, ["createreject/accepted", "createreject/rejected"], "all 49 pairs of 7 root kinds")],
     "anchors": ["v5.CreateMergePatch", "v5.createObjectMergePatch", "v5.createArrayMergePatch", "v5.getDiff", "v5.matchesValue", "v5.matchesArray"],
     "assumptions": ["member names distinct within an object", "null roots and null array elements outside (property)"],
     "outside_bound": ["objects with more than m members or deeper than the listed shapes", "numbers other than one symbolic digit (see C05 for literals)"]}
